@@ -133,6 +133,9 @@ pub fn alphabet() -> Vec<Op> {
     // operation below sets (an explicit layer colour must survive a later change of the module colour)
     a.push(Op::ShapeColor(1, [0, 0, 0, 255]));
     a.push(Op::ShapeColor(2, [0, 128, 0, 255]));
+    // a layer in the colour the background has by default: on top of another layer it is visible, and in any case it
+    // is a configured layer with one sub-path per dark module
+    a.push(Op::ShapeColor(1, [255, 255, 255, 255]));
     for m in [0usize, 1, 4, 7] {
         a.push(Op::Margin(m));
     }
@@ -361,7 +364,7 @@ fn colour_routes(c: [u8; 4]) -> Vec<String> {
 
 pub fn run(ctx: &Ctx) -> Collector {
     let col = Collector::new("C12", "model_checking");
-    col.set_rule("E2: breadth-first search over ALL SvgBuilder programs up to depth D (quick 3, thorough 4) over a 32-operation alphabet {shape x6, shape_color x6x2 + 2 with the default / the later module colour, margin x4, module_color, background_color, image(with & < > \" '), image_background_color, image_background_shape, image_size, image_gap, image_position}; model state = (layer list, margin, module colour, background, image) hashed and counted; every program (path) is replayed on a fresh real SvgBuilder and rendered on a v1 and a v2 symbol; oracle: own strict XML parser accepts the document; square viewBox/background of side size+2*margin in the background colour; one <path> per layer in order with the layer's colour; own path interpreter puts the sub-paths in bijection with the dark modules (centre inside the unit cell anchored at (col+margin,row+margin), box within the cell grown by 0.1, none on light modules or quiet zone); every layer's sub-paths (start point, bounding box, segment count) equal those a builder configured with that shape alone draws for the same symbol and margin; one <image> whose entity-decoded href equals the configured string. Sweeps: 40 versions x 6 shapes x 4 margins; 3 to 8 layers on versions 20/30/40 (documents of several MB); colour formatting (all 4x256 single-channel values and the 8^4 edge grid through every conversion route); image strings: all 820 strings of length <= 3 over {a & < > \" ' space ; #} + realistic URLs/data URIs/paths; data URIs of 2 KB to 1 MB; non-trivial = a document was rendered; distinct = distinct documents");
+    col.set_rule("E2: breadth-first search over ALL SvgBuilder programs up to depth D (quick 3, thorough 4) over a 33-operation alphabet {shape x6, shape_color x6x2 + 3 with the default / the later module colour / the default background colour, margin x4, module_color, background_color, image(with & < > \" '), image_background_color, image_background_shape, image_size, image_gap, image_position}; model state = (layer list, margin, module colour, background, image) hashed and counted; every program (path) is replayed on a fresh real SvgBuilder and rendered on a v1 and a v2 symbol; oracle: own strict XML parser accepts the document; square viewBox/background of side size+2*margin in the background colour; one <path> per layer in order with the layer's colour; own path interpreter puts the sub-paths in bijection with the dark modules (centre inside the unit cell anchored at (col+margin,row+margin), box within the cell grown by 0.1, none on light modules or quiet zone); every layer's sub-paths (start point, bounding box, segment count) equal those a builder configured with that shape alone draws for the same symbol and margin; one <image> whose entity-decoded href equals the configured string. Sweeps: 40 versions x 6 shapes x 4 margins; 3 to 8 layers on versions 20/30/40 (documents of several MB); colour formatting (all 4x256 single-channel values and the 8^4 edge grid through every conversion route); image strings: all 820 strings of length <= 3 over {a & < > \" ' space ; #} + realistic URLs/data URIs/paths; data URIs of 2 KB to 1 MB; non-trivial = a document was rendered; distinct = distinct documents");
     col.assume("custom Shape::Command callbacks and colours given as arbitrary strings are outside the quantifier as written; not explored");
     col.assume("geometry is judged on bounding boxes of flattened sub-paths (own interpreter), not on path syntax or emission order");
     let thorough = ctx.tier.thorough();
